@@ -62,7 +62,10 @@ def build_cases(tr, mode):
              ("DP17.Pi", sc.default_config("DP17.Pi"), 300),
              ("DP17.Pi", dict(sc.default_config("DP17.Pi"), param_L=2, param_actual_storage_level_ratio=0.5), 300),
              ("CGKO06.SSE1", dict(sc.default_config("CGKO06.SSE1"), param_s=512, param_dictionary_size=16), 300)]
+    bcfgs.append(("CJJ14.PiBas", sc.default_config("CJJ14.PiBas"), 300))      # label counter passes 256
+    bcfgs.append(("CJJ14.PiPack", dict(sc.default_config("CJJ14.PiPack"), param_B=1), 300))
     if tr == "thorough":
+        bcfgs.append(("CJJ14.PiBas", dict(sc.default_config("CJJ14.PiBas"), param_identifier_size=4), 65600))   # ... and 65536
         bcfgs.append(("CJJ14.Pi2Lev", sc.default_config("CJJ14.Pi2Lev"), 4200))
         bcfgs.append(("CJJ14.PiPtr", dict(sc.default_config("CJJ14.PiPtr"), param_B=2, param_b=16), 600))
     nb = 0
@@ -72,11 +75,13 @@ def build_cases(tr, mode):
         model["generated"] += r.generated or 0
         model["runs"].append({"module": "MC_Boundaries", "scheme": s, "max_n": maxn, "boundary_profiles": len(bs)})
         for p in bs:
-            if sum(p) <= 9000:
+            if sum(p) <= 70000:
                 cases.append((s, -2, cfg, p))
                 nb += 1
     if nb == 0:
         raise MachineryError("MC_Boundaries found no threshold at all")
+    # the far counter threshold (65536 entries under one keyword) is only enumerated by TLC in the thorough tier; one case of it always runs
+    cases.append(("CJJ14.PiBas", -3, dict(sc.default_config("CJJ14.PiBas"), param_identifier_size=4), [65537]))
     if tr == "thorough":
         # Pi2Lev's large (two-level pointer) case at the default B = 64 needs more than 4096 postings
         cases.append(("CJJ14.Pi2Lev", -1, sc.default_config("CJJ14.Pi2Lev"), [4200, 70, 3]))
